@@ -615,17 +615,20 @@ class PropBase:
         improved = True
         while improved and budget > 0:
             improved = False
-            for cand in self.shrink_candidates(cur):
-                budget -= 1
-                if budget <= 0:
-                    break
-                try:
-                    if self.still_fails(cand):
-                        cur = cand
-                        improved = True
+            try:
+                for cand in self.shrink_candidates(cur):
+                    budget -= 1
+                    if budget <= 0:
                         break
-                except Exception:
-                    continue
+                    try:
+                        if self.still_fails(cand):
+                            cur = cand
+                            improved = True
+                            break
+                    except Exception:
+                        continue
+            except Exception:      # a shrinker that cannot handle this case: report the case unshrunk
+                break
         return cur
 
     def spec_obs(self, case):
